@@ -86,6 +86,8 @@ class TranscriptInterval(AbstractFeatureInterval):
         elif cds_starts is not None and cds_ends is not None:  # must be coding
             if len(cds_starts) != len(cds_ends):
                 raise InvalidCDSIntervalError("Number of CDS starts does not number of CDS ends")
+            elif len(cds_starts) == 0:
+                raise InvalidCDSIntervalError("CDS starts and ends must not be empty")
             elif cds_starts[0] < exon_starts[0]:
                 raise InvalidCDSIntervalError("CDS start must be greater than or equal to exon start")
             elif cds_ends[-1] > exon_ends[-1]:
